@@ -313,6 +313,10 @@ pub fn gen(ops: &mut Vec<String>, seed: u64, thorough: bool) {
         let mut next_poll: Vec<i64> = (0..n).map(|i| online_at[i] + 1 + rng.below(period as u64) as i64).collect();
         let mut is_on = vec![false; n];
         let mut fault_budget = if faulty { 6 } else { 0 };
+        // fault instants: spread over the first half of the run (also long after the ring has formed)
+        let mut fault_times: Vec<i64> = (0..fault_budget).map(|_| (horizon / 16) + rng.below((horizon / 2 - horizon / 16).max(1) as u64) as i64).collect();
+        fault_times.sort();
+        fault_times.reverse();
         // half of the faulty cases have clean crashes only (no corruption, no drops), some of them for good
         let crash_only = faulty && (case / 3) % 2 == 0;
         let fault_until = horizon / 2;
@@ -326,8 +330,9 @@ pub fn gen(ops: &mut Vec<String>, seed: u64, thorough: bool) {
                 emit(&mut net, ops, format!("net.online {i} {}", online_at[i]));
                 is_on[i] = true;
             }
-            if fault_budget > 0 && t < fault_until && rng.chance(1, 400) {
+            if fault_budget > 0 && t < fault_until && fault_times.last().map_or(false, |ft| t >= *ft) {
                 fault_budget -= 1;
+                fault_times.pop();
                 match if crash_only { 2 } else { rng.below(3) } {
                     0 => {
                         emit(&mut net, ops, format!("net.corrupt {} {}", t, t + rng.below(6 * slot_t as u64) as i64));
